@@ -560,3 +560,53 @@ def check_rearm_immediate(ctx, rule, f, sites):
         else:
             ctx.holds(rule, f, "re-arm-before-foreign-code:" + name, where, "`%s` is re-armed right after it completed" % name)
     return n
+
+
+def check_flag_then_pending(ctx, rule, f):
+    """a poll function that answers Ready on the strength of a flag of its own alone (`if self.x_ended && .. { return Ready(None) }`,
+    no input polled on that path) must not set that flag and then answer Pending in the same invocation: the next poll would be
+    Ready although nothing wakes the task in between."""
+    b = poll_body(ctx.facts, f)
+    if b is None:
+        return 0
+    sites = {blk for blk, t in b.calls() if is_poll_call(t)}
+    sets = {}
+    for loc, s_ in b.iter_stmts():
+        if s_["k"] == "assign" and s_["place"]["proj"] and s_["rv"]["k"] == "use" and s_["rv"]["op"]["k"] == "const" and s_["rv"]["op"].get("int") == 1 and "bool" in str(s_["rv"]["op"].get("ty")):
+            fld = last_field(s_["place"])
+            if fld:
+                sets.setdefault(fld, []).append(loc)
+    if not sets:
+        return 0
+    pend, ready_on = [], {}
+    for loc, kind, payload in blocks_assigning_ret(b):
+        if kind != "assign":
+            if kind == "call" and loc[0] in sites:
+                pend.append(loc)
+            continue
+        rv = payload
+        if rv["k"] == "agg" and rv.get("adt") == "std::task::Poll":
+            if rv.get("variant") == "Pending":
+                pend.append(loc)
+            elif rv.get("variant") == "Ready":
+                facts = conds.bare(conds.dominating_facts(b, loc[0]))
+                polled_before = any(b.dominates(sb, loc[0]) for sb in sites)
+                for fld in sets:
+                    if not polled_before and any(fc[0] == "truth" and fc[2] is True and mentions_field(fc[1], fld) for fc in facts):
+                        ready_on.setdefault(fld, []).append(loc)
+        else:
+            e = b.expr_of_rv(rv, 10, ())
+            if forwarded_site(e, {(sb, len(b.blocks[sb]["stmts"])): "x" for sb in sites}):
+                pend.append(loc)
+    n = 0
+    for fld, rlocs in sorted(ready_on.items()):
+        # only the tests that guard such a Ready answer count as "re-examined" (a `while !flag` loop condition that merely leaves the loop does not)
+        tests = {blk for blk in range(b.n) if b.term(blk)["k"] == "switch" and mentions_field(b.expr_of_op(b.term(blk)["on"]), fld) and any(b.dominates(blk, rl[0]) for rl in rlocs)}
+        for sloc in sets[fld]:
+            n += 1
+            reach = b.reachable_from(sloc[0], avoid_blocks=sorted(tests - {sloc[0]}))
+            bad = [pl for pl in pend if pl[0] in reach]
+            ctx.verdict(not bad, rule, f, "flag-set-then-pending:%s" % fld, b.line_at(bad[0] if bad else sloc), "after `%s` is set the function re-examines it before it can answer Pending" % fld,
+                        "`%s` sets `%s` and can then answer Pending in the same invocation, while a later invocation answers Ready on the strength of that flag alone (without polling anything): "
+                        "the stream has become ready but no waker will ever announce it - the consumer is only told if it happens to poll again" % (f.path, fld))
+    return n
